@@ -58,7 +58,9 @@ def _fixed_points(chk):
             chk.count(1, "fp|" + r["value"])
             chk.validated(1)
             for m in r["mism"]:
-                chk.mismatch(m["clause"], {"clause": m["clause"], "tag": r["case"]["tag"], "cont": r["case"]["cont"], "op": r["case"]["op"]},
+                chk.mismatch(m["clause"], {"clause": m["clause"], "tag": r["case"]["tag"], "cont": r["case"]["cont"], "op": r["case"]["op"],
+                                            # a float whose repr has an exponent sign that the formatter removes (1e+100 -> 1e100)
+                                            "big_exponent": "1e100" in r["value"]},
                              {"kind": "fixed-point", "case": r["case"], "value": r["value"], "mismatch": m}, props=m["props"])
 
 
